@@ -10,6 +10,9 @@ Ltac Zify.zify_post_hook ::= Z.to_euclidean_division_equations.
 
 Definition div_small (f : fmt) : Prop := 1 <= nw f <= 26 /\ 0 <= nf f <= nw f.
 
+Lemma raw_cast_small53 dx dy n : n <= 53 -> raw_cast dx dy n = false.
+Proof. intros Hn. unfold raw_cast. replace (64 <=? n) with false by lia. replace (53 <? n) with false by lia. rewrite andb_false_r. reflexivity. Qed.
+
 (* ---------- storing exact integers delivered in a known dtype ---------- *)
 Lemma store_kind K f r o zs : zs <> [] -> Forall (kind_ok K) zs -> 1 <= nw f ->
   (K = KU -> nw f < 64) -> (K = KF -> nw f <= 53) ->
@@ -98,6 +101,19 @@ Proof.
   destruct (sg f); cbn [load encode]; [reflexivity|]. rewrite wrap_u64_small by (specialize (Hpos eq_refl); lia). reflexivity.
 Qed.
 
+(* utils.scale_raw on a small operand: never needs Python integers, same as the plain product *)
+Lemma mscale_raw_up f c k : div_small f -> in_range f c -> 0 <= k <= 26 ->
+  mscale_raw (load (storage f) c) k = Ok (encode (if sg f then KI else KU) (c * 2^k)).
+Proof.
+  intros Hf Hr Hk. unfold mscale_raw. destruct (0 <? k) eqn:Ek; [|apply mscale_up; assumption].
+  destruct (small_mag f c Hf Hr) as (Hc & Hpos). destruct Hf as (Hw & _). rewrite storage_small by lia.
+  assert (Pk: 0 < 2^k <= 2^26) by (split; [apply pow2_pos; lia | apply pow2_le; lia]).
+  assert (E52: 2^26 * 2^26 = 2^52) by reflexivity. assert (E5263: 2^52 < 2^63) by (apply pow2_lt; lia). assert (E64: 2^63 < 2^64) by (apply pow2_lt; lia).
+  assert (Hs: (63 <=? k) || (2^63 <=? Z.abs c * 2^k) = false) by (apply orb_false_iff; split; [lia | nia]).
+  destruct (sg f) eqn:Es; cbn [load encode]; rewrite Hs; [reflexivity|].
+  rewrite wrap_u64_small by (specialize (Hpos eq_refl); nia). reflexivity.
+Qed.
+
 Lemma kind2_ok fx fy z : Z.abs z < 2^53 -> kind_ok (kind2 fx fy) z.
 Proof.
   intros Hz. assert (2^53 < 2^63) by (apply pow2_lt; lia). unfold kind2. destruct (sg fx), (sg fy); cbn [kind_ok]; lia.
@@ -166,8 +182,9 @@ Proof.
   intros Hx Hy Hra Hrb Hb. destruct (small_mag fx a Hx Hra) as (Ha & Pa). destruct (small_mag fy b Hy Hrb) as (Hbm & Pb).
   unfold div_raw_elem.
   assert (Hnfr: nf (grow_mod fx fy) = Z.max (nf fx) (nf fy)) by reflexivity. rewrite Hnfr.
-  assert (Hpc: precision_cast (Z.max (nf fx) (nf fy)) = false) by (unfold precision_cast; destruct Hx as (? & ?), Hy as (? & ?); lia).
-  rewrite Hpc. cbn [cast_if]. unfold mod_code.
+  assert (Hrc: raw_cast (storage fx) (storage fy) (Z.max (nw fx + Z.max (nf fx) (nf fy) - nf fx) (nw fy + Z.max (nf fx) (nf fy) - nf fy)) = false).
+  { apply raw_cast_small53. destruct Hx as (? & ?), Hy as (? & ?). lia. }
+  rewrite Hrc. cbn [cast_if]. unfold mod_code.
   set (kx := Z.max (nf fx) (nf fy) - nf fx). set (ky := Z.max (nf fx) (nf fy) - nf fy).
   assert (Hkx: 0 <= kx <= 26) by (unfold kx; destruct Hx as (? & ?), Hy as (? & ?); lia).
   assert (Hky: 0 <= ky <= 26) by (unfold ky; destruct Hx as (? & ?), Hy as (? & ?); lia).
@@ -176,7 +193,7 @@ Proof.
   assert (E52: 2^26 * 2^26 = 2^52) by reflexivity. assert (E5253: 2^52 < 2^53) by (apply pow2_lt; lia).
   assert (HA: Z.abs (a * 2^kx) < 2^53) by (rewrite Z.abs_mul, (Z.abs_eq (2^kx)) by lia; nia).
   assert (HB: Z.abs (b * 2^ky) < 2^53) by (rewrite Z.abs_mul, (Z.abs_eq (2^ky)) by lia; nia).
-  rewrite (mscale_up fx a kx Hx Hra Hkx), (mscale_up fy b ky Hy Hrb Hky). cbn [bind].
+  rewrite (mscale_raw_up fx a kx Hx Hra Hkx), (mscale_raw_up fy b ky Hy Hrb Hky). cbn [bind].
   rewrite mmod_ints; try assumption; try nia; try (intros Hs; specialize (Pa Hs); nia); try (intros Hs; specialize (Pb Hs); nia).
   split; [reflexivity|]. set (A := a * 2^kx) in *. set (B := b * 2^ky) in *. assert (B <> 0) by (unfold B; nia). nia.
 Qed.
@@ -241,31 +258,6 @@ Proof.
 Qed.
 
 (* ---------- x // y ---------- *)
-(* the operand rescaled to n_frac = 0 (the fraction length of the floor-division result):
-   unchanged integers when it has no fraction bits, a float otherwise *)
-Lemma mscale_down f c : div_small f -> in_range f c ->
-  exists v, mscale (load (storage f) c) (0 - nf f) = Ok v /\ num_to_f64 (as_num v) = Fin c (- nf f) /\
-    (nf f = 0 -> v = encode (if sg f then KI else KU) c) /\ (nf f <> 0 -> exists x, v = MF x) /\
-    (match v with MO _ => False | _ => True end).
-Proof.
-  intros Hf Hr. destruct (small_mag f c Hf Hr) as (Hc & Hpos). assert (E26: 2^26 < 2^53) by (apply pow2_lt; lia).
-  destruct (Z.eq_dec (nf f) 0) as [E0|Hn0].
-  - rewrite E0. change (0 - 0) with 0. rewrite (mscale_up f c 0 Hf Hr ltac:(lia)). rewrite Z.pow_0_r, Z.mul_1_r.
-    eexists. split; [reflexivity|]. assert (E64: 2^53 < 2^64) by (apply pow2_lt; lia).
-    split; [|split; [intros _; reflexivity | split; [intros Hne; congruence | destruct (sg f); exact I]]].
-    destruct (sg f) eqn:Es; cbn [encode as_num num_to_f64].
-    + apply f64_of_Z_exact. lia.
-    + rewrite wrap_u64_small by (specialize (Hpos eq_refl); lia). apply f64_of_Z_exact. lia.
-  - destruct Hf as (Hw & Hfr). rewrite storage_small by lia. unfold mscale. replace (0 <=? 0 - nf f) with false by lia.
-    assert (Hfit: rnd64 c (0 + (0 - nf f)) = Fin c (- nf f)).
-    { replace (0 + (0 - nf f)) with (- nf f) by lia. apply rnd64_exact.
-      pose proof (bitlen_le c 53 ltac:(lia) ltac:(lia)). pose proof (bitlen_nonneg c). unfold fits53. lia. }
-    destruct (sg f); cbn [load as_num num_to_f64]; rewrite f64_of_Z_exact by lia; cbn [f64_mul_pow2]; rewrite Hfit;
-      (eexists; split; [reflexivity|]; cbn [as_num num_to_f64]; split; [reflexivity|]; split; [intros; congruence|]; split; [intros _; eexists; reflexivity | exact I]).
-Qed.
-
-Definition kind_fl (fx fy : fmt) : rkind := if (nf fx =? 0) && (nf fy =? 0) then kind2 fx fy else KF.
-
 Lemma floordiv_code_mag fx a fy b : div_small fx -> div_small fy -> in_range fx a -> in_range fy b -> b <> 0 ->
   Z.abs (floordiv_code fx a fy b) < 2^53.
 Proof.
@@ -282,49 +274,36 @@ Proof.
   assert (Z.abs (A / B) <= Z.abs A) by (destruct (Z_lt_le_dec 0 B); destruct (Z_lt_le_dec 0 A); nia). lia.
 Qed.
 
-Lemma mfloordiv_float va vb : (exists x, va = MF x) \/ (exists x, vb = MF x) ->
-  match va with MO _ => False | _ => True end -> match vb with MO _ => False | _ => True end ->
-  mfloordiv va vb = MF (f64_floordiv (num_to_f64 (as_num va)) (num_to_f64 (as_num vb))).
-Proof.
-  intros H Na Nb. destruct va, vb; try contradiction; destruct H as [(xx & Hx)|(xx & Hx)]; try discriminate; reflexivity.
-Qed.
-
+(* the raw values aligned on the finer fraction length, integer quotient, n_frac = 0 *)
 Lemma floordiv_elem fx fy a b : div_small fx -> div_small fy -> in_range fx a -> in_range fy b -> b <> 0 ->
-  div_raw_elem DFloor fx fy (nf (grow_floordiv fx fy)) a b = Ok (encode (kind_fl fx fy) (floordiv_code fx a fy b)).
+  div_raw_elem DFloor fx fy (nf (grow_floordiv fx fy)) a b = Ok (encode (kind2 fx fy) (floordiv_code fx a fy b)).
 Proof.
   intros Hx Hy Hra Hrb Hb. pose proof (floordiv_code_mag fx a fy b Hx Hy Hra Hrb Hb) as Hq.
   destruct (small_mag fx a Hx Hra) as (Ha & Pa). destruct (small_mag fy b Hy Hrb) as (Hbm & Pb).
-  assert (E26: 2^26 < 2^53) by (apply pow2_lt; lia). assert (E63: 2^53 < 2^63) by (apply pow2_lt; lia). assert (E64: 2^63 < 2^64) by (apply pow2_lt; lia).
+  assert (E53: 2^53 < 2^63) by (apply pow2_lt; lia). assert (E64: 2^63 < 2^64) by (apply pow2_lt; lia).
   unfold div_raw_elem. change (nf (grow_floordiv fx fy)) with 0.
-  change (precision_cast 0) with false. cbn [cast_if].
-  destruct (mscale_down fx a Hx Hra) as (va & Hva & Fa & Ia & Ma & Na). destruct (mscale_down fy b Hy Hrb) as (vb & Hvb & Fb & Ib & Mb & Nb).
-  rewrite Hva, Hvb. cbn [bind]. unfold kind_fl.
-  assert (Hfloat: (exists x, va = MF x) \/ (exists x, vb = MF x) -> nf fx <> 0 \/ nf fy <> 0 ->
-            mscale (mfloordiv va vb) 0 = Ok (encode (if (nf fx =? 0) && (nf fy =? 0) then kind2 fx fy else KF) (floordiv_code fx a fy b))).
-  { intros HF Hnz. rewrite (mfloordiv_float va vb HF Na Nb). rewrite Fa, Fb.
-    replace ((nf fx =? 0) && (nf fy =? 0)) with false by lia.
-    assert (Hfd: f64_floordiv (Fin a (- nf fx)) (Fin b (- nf fy)) = Fin (floordiv_code fx a fy b) 0).
-    { unfold f64_floordiv. replace (b =? 0) with false by lia.
-      change ((a * 2^(- nf fx - Z.min (- nf fx) (- nf fy))) / (b * 2^(- nf fy - Z.min (- nf fx) (- nf fy)))) with (floordiv_code fx a fy b).
-      apply rnd64_exact. pose proof (bitlen_le (floordiv_code fx a fy b) 53 ltac:(lia) Hq). pose proof (bitlen_nonneg (floordiv_code fx a fy b)). unfold fits53. lia. }
-    rewrite Hfd. unfold mscale. replace (0 <=? 0) with true by reflexivity. cbn [f64_mul_pow2 encode].
-    rewrite (rnd64_exact _ (0 + 0)); [reflexivity|]. pose proof (bitlen_le (floordiv_code fx a fy b) 53 ltac:(lia) Hq). pose proof (bitlen_nonneg (floordiv_code fx a fy b)). unfold fits53. lia. }
-  destruct (Z.eq_dec (nf fx) 0) as [Ex|Ex]; destruct (Z.eq_dec (nf fy) 0) as [Ey|Ey].
-  - (* both operands are integers already *)
-    rewrite (Ia Ex), (Ib Ey). replace (nf fx =? 0) with true by lia. replace (nf fy =? 0) with true by lia. cbn [andb].
-    rewrite mfloordiv_ints by (try lia; assumption).
-    assert (Hc: floordiv_code fx a fy b = a / b).
-    { rewrite floordiv_code_aligned. unfold aligned. cbn [fst snd]. rewrite Ex, Ey. change (Z.max 0 0 - 0) with 0. rewrite Z.pow_0_r, !Z.mul_1_r. reflexivity. }
-    rewrite <- Hc. unfold mscale. replace (0 <=? 0) with true by reflexivity.
-    unfold kind2. destruct (sg fx), (sg fy); cbn [encode].
-    + unfold fits_i64. replace ((- 2^63 <=? 2^0) && (2^0 <? 2^63)) with true by reflexivity. rewrite Z.pow_0_r, Z.mul_1_r, wrap_i64_small by lia. reflexivity.
-    + cbn [f64_mul_pow2]. rewrite (rnd64_exact _ 0); [reflexivity|]. pose proof (bitlen_le (floordiv_code fx a fy b) 53 ltac:(lia) Hq). pose proof (bitlen_nonneg (floordiv_code fx a fy b)). unfold fits53. lia.
-    + cbn [f64_mul_pow2]. rewrite (rnd64_exact _ 0); [reflexivity|]. pose proof (bitlen_le (floordiv_code fx a fy b) 53 ltac:(lia) Hq). pose proof (bitlen_nonneg (floordiv_code fx a fy b)). unfold fits53. lia.
-    + unfold fits_u64. replace ((0 <=? 2^0) && (2^0 <? 2^64)) with true by reflexivity. rewrite Z.pow_0_r, Z.mul_1_r.
-      unfold wrap_u64. rewrite Z.mod_mod by lia. reflexivity.
-  - apply Hfloat; [right; apply Mb; exact Ey | lia].
-  - apply Hfloat; [left; apply Ma; exact Ex | lia].
-  - apply Hfloat; [left; apply Ma; exact Ex | lia].
+  set (m := Z.max (nf fx) (nf fy)).
+  assert (Hrc: raw_cast (storage fx) (storage fy) (Z.max (nw fx + m - nf fx) (nw fy + m - nf fy)) = false).
+  { apply raw_cast_small53. unfold m. destruct Hx as (? & ?), Hy as (? & ?). lia. }
+  rewrite Hrc. cbn [cast_if].
+  set (kx := m - nf fx). set (ky := m - nf fy).
+  assert (Hkx: 0 <= kx <= 26) by (unfold kx, m; destruct Hx as (? & ?), Hy as (? & ?); lia).
+  assert (Hky: 0 <= ky <= 26) by (unfold ky, m; destruct Hx as (? & ?), Hy as (? & ?); lia).
+  assert (Pkx: 0 < 2^kx <= 2^26) by (split; [apply pow2_pos; lia | apply pow2_le; lia]).
+  assert (Pky: 0 < 2^ky <= 2^26) by (split; [apply pow2_pos; lia | apply pow2_le; lia]).
+  assert (E52: 2^26 * 2^26 = 2^52) by reflexivity. assert (E5253: 2^52 < 2^53) by (apply pow2_lt; lia).
+  assert (HA: Z.abs (a * 2^kx) < 2^53) by (rewrite Z.abs_mul, (Z.abs_eq (2^kx)) by lia; nia).
+  assert (HB: Z.abs (b * 2^ky) < 2^53) by (rewrite Z.abs_mul, (Z.abs_eq (2^ky)) by lia; nia).
+  rewrite (mscale_raw_up fx a kx Hx Hra Hkx), (mscale_raw_up fy b ky Hy Hrb Hky). cbn [bind].
+  rewrite mfloordiv_ints; try assumption; try nia; try (intros Hs; specialize (Pa Hs); nia); try (intros Hs; specialize (Pb Hs); nia).
+  assert (Hc: a * 2^kx / (b * 2^ky) = floordiv_code fx a fy b) by (rewrite floordiv_code_aligned; reflexivity).
+  rewrite Hc. unfold mscale_raw. change (0 <? 0) with false. cbv iota. unfold mscale. change (0 <=? 0) with true. cbv iota.
+  unfold kind2. destruct (sg fx), (sg fy); cbn [encode].
+  - unfold fits_i64. replace ((- 2^63 <=? 2^0) && (2^0 <? 2^63)) with true by reflexivity. rewrite Z.pow_0_r, Z.mul_1_r, wrap_i64_small by lia. reflexivity.
+  - cbn [f64_mul_pow2]. rewrite (rnd64_exact _ (0 + 0)); [reflexivity|]. pose proof (bitlen_le (floordiv_code fx a fy b) 53 ltac:(lia) Hq). pose proof (bitlen_nonneg (floordiv_code fx a fy b)). unfold fits53. lia.
+  - cbn [f64_mul_pow2]. rewrite (rnd64_exact _ (0 + 0)); [reflexivity|]. pose proof (bitlen_le (floordiv_code fx a fy b) 53 ltac:(lia) Hq). pose proof (bitlen_nonneg (floordiv_code fx a fy b)). unfold fits53. lia.
+  - unfold fits_u64. replace ((0 <=? 2^0) && (2^0 <? 2^64)) with true by reflexivity. rewrite Z.pow_0_r, Z.mul_1_r.
+    unfold wrap_u64. rewrite Z.mod_mod by lia. reflexivity.
 Qed.
 
 (* the floor quotient fits the optimal format of // for every signedness combination *)
@@ -377,10 +356,9 @@ Theorem floordiv_raw_model_any fx fy cxs cys r o : div_small fx -> div_small fy 
     w_codes w = map (fun p => floordiv_code fx (fst p) fy (snd p)) (combine cxs cys) /\ w_ovf w = false /\ w_unf w = false.
 Proof.
   intros Hx Hy Hw1 Hlen Hne Hrx Hry.
-  apply (div_raw_from_elems DFloor fx fy (grow_floordiv fx fy) (kind_fl fx fy) (fun p => floordiv_code fx (fst p) fy (snd p))); try assumption; try lia.
+  apply (div_raw_from_elems DFloor fx fy (grow_floordiv fx fy) (kind2 fx fy) (fun p => floordiv_code fx (fst p) fy (snd p))); try assumption; try lia.
   intros [a b] Hp. cbn [fst snd]. rewrite Forall_forall in Hrx, Hry.
   pose proof (Hrx a (in_combine_l _ _ _ _ Hp)) as Ha. destruct (Hry b (in_combine_r _ _ _ _ Hp)) as (Hb & Hb0).
   split; [apply floordiv_elem; assumption|]. pose proof (floordiv_code_mag fx a fy b Hx Hy Ha Hb Hb0) as Hm.
-  split; [|apply floordiv_in_range; assumption].
-  unfold kind_fl. destruct ((nf fx =? 0) && (nf fy =? 0)); [apply kind2_ok; exact Hm | exact Hm].
+  split; [apply kind2_ok; exact Hm | apply floordiv_in_range; assumption].
 Qed.
